@@ -865,6 +865,55 @@ fn check_forest(case: &ForestCase, p: &mut Probe) -> Check {
     Ok(())
 }
 
+/// shapes no generator above produces: matrices with a dimension of zero (the textbook schedule on
+/// no variables or no checks: success without an iteration), and a cycle-free 2 x 65 538 matrix with
+/// a check of 65 537 neighbours (a row weight beyond 16 bits) decoded by the exact arithmetics, where
+/// one weak wrong bit is corrected by its 65 536 strong neighbours in the first iteration
+fn extreme_cases(_t: Tier) -> Vec<u8> {
+    vec![0, 1, 2, 3, 4]
+}
+
+fn check_extreme(which: &u8, p: &mut Probe) -> Check {
+    if *which <= 3 {
+        let (r, n) = [(0usize, 0usize), (3, 0), (0, 5), (1, 0)][*which as usize];
+        let llrs: Vec<Fx> = (0..n).map(|i| Fx(if i % 2 == 0 { 1.5 } else { -2.0 })).collect();
+        let case = Case { h: Mat::new(r, n), llrs: llrs.clone(), limit: 3, more: vec![(llrs.clone(), 0), (llrs, 7)], emit: *which };
+        p.class("a-dimension-of-zero");
+        return check_reference(&case, p);
+    }
+    let n = 65_538usize;
+    let mut h = Mat::new(2, n);
+    for j in 0..=65_536 {
+        h.ones.push((0, j));
+    }
+    h.ones.push((1, 65_536));
+    h.ones.push((1, 65_537));
+    let hs = h.to_sparse();
+    let mut llrs = vec![30.0f64; n];
+    llrs[1234] = -1.0;
+    macro_rules! both {
+        ($arith:expr, $name:expr) => {{
+            let mut fl = flooding::Decoder::new(hs.clone(), $arith);
+            let mut la = horizontal_layered::Decoder::new(hs.clone(), $arith);
+            for (sched, got) in [("flooding", guarded(|| fl.decode(&llrs, 5))), ("layered", guarded(|| la.decode(&llrs, 5)))] {
+                let got = got.map_err(|e| Fail::new("panic", format!("{sched}/{}: panicked on a check of 65 537 neighbours: {e}", $name)))?;
+                let ok = got.as_ref().is_ok_and(|o| o.iterations == 1 && o.codeword.len() == n && o.codeword.iter().all(|&b| b == 0));
+                let show = match &got {
+                    Ok(o) => format!("Ok after {} iterations with {} ones", o.iterations, o.codeword.iter().filter(|&&b| b == 1).count()),
+                    Err(o) => format!("Err after {} iterations with {} ones", o.iterations, o.codeword.iter().filter(|&&b| b == 1).count()),
+                };
+                ensure!(ok, "heavy-row", "{sched}/{}: 2 x 65 538 cycle-free matrix with a check of 65 537 neighbours, all LLRs +30 but one of -1: the textbook schedule corrects the weak bit in the first iteration (extrinsic LLR about +19), the decoder returns {show}", $name);
+                p.inner += 1;
+            }
+        }};
+    }
+    both!(Phif64::new(), "Phif64");
+    both!(Tanhf64::new(), "Tanhf64");
+    p.class("check-of-65537-neighbours");
+    p.nontrivial();
+    Ok(())
+}
+
 pub fn property() -> Property {
     Property {
         id: "C03",
@@ -876,6 +925,13 @@ pub fn property() -> Property {
                 strategy: case_strategy,
                 check: check_reference,
                 health: &[("iterations>=3", 0.30)],
+            }),
+            Box::new(EnumSub {
+                name: "extreme-shapes",
+                rule: "fixed: matrices 0 x 0, 3 x 0, 0 x 5, 1 x 0 through the reference comparison above (three calls each, limits 3, 0, 7); a cycle-free 2 x 65 538 matrix with a check of 65 537 neighbours, LLRs +30 but one of -1, Phif64 and Tanhf64 in both schedules: success after exactly one iteration with the all-zero word",
+                cases: extreme_cases,
+                check: check_extreme,
+                exhaustive: false,
             }),
             Box::new(Sub {
                 name: "trace",
